@@ -87,6 +87,20 @@ type StatementCache interface {
 	Get(ctx context.Context, name string) (*Statement, error)
 }
 
+// StatementCloser could be implemented by a [StatementCache] to support the
+// Close message. The prepared statement bound to the given name, if any, has
+// to be removed from the cache.
+type StatementCloser interface {
+	Close(ctx context.Context, name string) error
+}
+
+// PortalCloser could be implemented by a [PortalCache] to support the Close
+// message. The portal bound to the given name, if any, has to be removed from
+// the cache.
+type PortalCloser interface {
+	Close(ctx context.Context, name string) error
+}
+
 // PortalCache represents a cache which could be used to bind and execute
 // prepared statements with parameters.
 type PortalCache interface {
